@@ -475,6 +475,47 @@ func checkC16(c *Case, s *Stats) error {
 	if after != before {
 		return viol("live-array-changed", "an array that was built earlier and is still alive reads differently after later array builds: %.300s -> %.300s", before, after)
 	}
+	// history on ONE object (C16-h): the earlier array has been read through its
+	// accessor; now other content (another index set, other elements) is loaded into
+	// the same object with proto.Unmarshal. It must read exactly like a fresh array
+	// holding that content — whatever the first reads left behind.
+	oidx := make([]int32, 0, len(eidx))
+	oraw := make([]uint64, 0, len(eidx))
+	for i, x := range eidx {
+		if i%3 != 1 {
+			oidx = append(oidx, x+int32(i%2)*3+int32(len(c.Idx)%5))
+			oraw = append(oraw, eraw[i]^0x5555aaaa5555aaaa)
+		}
+	}
+	if !ascendingIdx(oidx) {
+		return nil
+	}
+	other, oerr := buildArray(c.Kind, oidx, oraw)
+	if oerr != nil || other == nil {
+		if v, ok := oerr.(*violation); ok {
+			return v
+		}
+		return viol("valid-rejected", "constructor rejected valid input: %v", oerr)
+	}
+	var want, got string
+	if err := guard("proto.Unmarshal into an array that was read before", func() error {
+		buf, e := proto.Marshal(other.msg)
+		if e != nil {
+			return viol("array-roundtrip", "proto.Marshal failed: %v", e)
+		}
+		if e := proto.Unmarshal(buf, earlier.msg); e != nil {
+			return viol("array-roundtrip", "proto.Unmarshal into a used %s array failed: %v", c.Kind, e)
+		}
+		want = fmt.Sprintf("%v", snapshotArray(other, 9000))
+		got = fmt.Sprintf("%v", snapshotArray(earlier, 9000))
+		return nil
+	}); err != nil {
+		return err
+	}
+	if want != got {
+		return viol("array-residue", "a %s array that had been read and was then loaded with other content (proto.Unmarshal) reads %.300s, a fresh array with that content reads %.300s", c.Kind, got, want)
+	}
+	s.class("loaded_into_a_used_array")
 	return nil
 }
 
